@@ -1,4 +1,4 @@
-\* quick, deep: every tree of <= 4 entries, depth <= 3, 5 core file names x {no x bit, 0755}, 3 directory names (a, .g, lib), 3 names of the hooks directory, <= 1 bad hook x 2 kinds: ~51 k states
+\* quick, deep: every tree of <= 4 entries, depth <= 3, 5 core file names x {no x bit, 0755}, 3 directory names (a, .g, lib), 3 names of the hooks directory, <= 1 bad hook x 2 kinds: ~51 k states; cases exported for 1 of 7 residue classes of trees (chosen by the seed)
 SPECIFICATION Spec
 CONSTANTS
   DirNames <- DirNamesCore
@@ -11,6 +11,8 @@ CONSTANTS
   MaxFiles = 4
   RootRule = FALSE
   EmitCases = TRUE
+  EmitMod = 7
+  EmitRem = 0
 INVARIANTS TypeOK HooksExact OrderSorted NamesUnique ConfigRound RootNameIrrelevant Emit
 PROPERTIES AddIsLocal
 CHECK_DEADLOCK FALSE
